@@ -1,3 +1,215 @@
-import RlibModel.Model.Common
-/-! Line-protocol driver for engine `treap` (stub: to be written by the engine's author). -/
-def main : IO Unit := pure ()
+import RlibModel.Model.TreapItems
+/-!
+Line-protocol driver for engine `treap` (properties C03 and C16).
+
+Case line:  `<C03|C16> <sum|aff> <ctl|own|big> [pm=<k>] ; op ; op ; …`
+
+* `ctl`  every node's priority is in the case (`item v p`), the harness writes the same number into
+         the public `priority` field, so model and implementation build the same shapes;
+* `own`  priorities are rlib's (`*` in the case); the model draws its own from policy `pm`, which
+         is sound for sequence-level observables because `seq` provably ignores priorities;
+* `big`  (C16 only) macro operations building up to 10^6 elements with rlib's priorities; the
+         model only keeps the element count, `heap=ok` is what `heap_history` proves and the
+         height bound is the measured (statistical) claim.
+
+Operations: `new`, `item v p`, `merge i j`, `splitat i k`, `splitby i lt|le|gt|ge c`,
+`insert i k v p`, `remove i k`, `first i`, `last i`, `collect i`, `size i`, `agg i`, `tag i m…`, `drop i`.
+-/
+open Rlib Rlib.Treap
+
+structure ItemIO (G M : Type) where
+  parseTag : List String → Option M
+  showG : G → String
+
+def sumIO : ItemIO (Nat × Int) Int where
+  parseTag
+    | [c] => parseInt? c
+    | _ => none
+  showG g := s!"({g.1},{g.2})"
+
+def affIO : ItemIO (Int × Int) (Int × Int) where
+  parseTag
+    | [a, b] => match parseInt? a, parseInt? b with
+      | some a, some b => some (a, b)
+      | _, _ => none
+    | _ => none
+  showG g := s!"({g.1},{g.2})"
+
+/-- the model's own priority for the `k`-th node created with priority `*` -/
+def modelPrio (pm k : Nat) : Nat :=
+  match pm with
+  | 0 => 7
+  | 1 => k
+  | 2 => 1000000 - k
+  | 3 => k % 3
+  | _ => (k * 2654435761 + 12345 * pm) % 4294967296
+
+def parsePrio (pm k : Nat) (s : String) : Option (Nat × Nat) :=
+  if s = "*" then some (modelPrio pm k, k + 1) else (parseNat? s).map (fun p => (p, k))
+
+def parsePred (rel c : String) : Option (Int → Bool) :=
+  match parseInt? c with
+  | none => none
+  | some c =>
+    match rel with
+    | "lt" => some (fun e => e < c)
+    | "le" => some (fun e => e ≤ c)
+    | "gt" => some (fun e => e > c)
+    | "ge" => some (fun e => e ≥ c)
+    | _ => none
+
+/-- parse one operation; `k` counts the nodes created with priority `*` so far -/
+def parseOp {G M : Type} (io : ItemIO G M) (pm k : Nat) (toks : List String) : Option (Op Int M Int × Nat) :=
+  match toks with
+  | ["new"] => some (.new, k)
+  | ["item", v, p] =>
+    match parseInt? v, parsePrio pm k p with
+    | some v, some (p, k') => some (.item v p, k')
+    | _, _ => none
+  | ["merge", i, j] =>
+    match parseNat? i, parseNat? j with
+    | some i, some j => some (.merge i j, k)
+    | _, _ => none
+  | ["splitat", i, n] =>
+    match parseNat? i, parseNat? n with
+    | some i, some n => some (.splitAt i n, k)
+    | _, _ => none
+  | ["splitby", i, rel, c] =>
+    match parseNat? i, parsePred rel c with
+    | some i, some g => some (.splitBy i g, k)
+    | _, _ => none
+  | ["insert", i, n, v, p] =>
+    match parseNat? i, parseNat? n, parseInt? v, parsePrio pm k p with
+    | some i, some n, some v, some (p, k') => some (.insertAt i n v p, k')
+    | _, _, _, _ => none
+  | ["remove", i, n] =>
+    match parseNat? i, parseNat? n with
+    | some i, some n => some (.removeAt i n, k)
+    | _, _ => none
+  | ["first", i] => (parseNat? i).map (fun i => (.first i, k))
+  | ["last", i] => (parseNat? i).map (fun i => (.last i, k))
+  | ["collect", i] => (parseNat? i).map (fun i => (.collect i, k))
+  | ["size", i] => (parseNat? i).map (fun i => (.size i, k))
+  | ["agg", i] => (parseNat? i).map (fun i => (.agg i, k))
+  | ["drop", i] => (parseNat? i).map (fun i => (.drop i, k))
+  | "tag" :: i :: rest =>
+    match parseNat? i, io.parseTag rest with
+    | some i, some m => some (.tag i m, k)
+    | _, _ => none
+  | _ => none
+
+def parseOps {G M : Type} (io : ItemIO G M) (pm : Nat) : Nat → List String → Option (List (Op Int M Int))
+  | _, [] => some []
+  | k, s :: rest =>
+    match parseOp io pm k (tokens s) with
+    | none => none
+    | some (op, k') => (parseOps io pm k' rest).map (op :: ·)
+
+def showObs {G : Type} (showG : G → String) (view : Bool) : Obs Int G → String
+  | .unit => "-"
+  | .nats ns => "n:" ++ "+".intercalate (ns.map toString)
+  | .optE none => "none"
+  | .optE (some e) => s!"some:{e}"
+  | .listE l => showInts l
+  | .optG none => "g:none"
+  | .optG (some g) => "g:" ++ showG g
+  | .removed (.ok e) => s!"rm:{e}"
+  | .removed (.error p) => if view then "rm:panic" else "rm:" ++ p.toString
+
+def showSkel : Tree Unit → String
+  | .nil => "."
+  | .node _ p l r => "(" ++ showSkel l ++ toString p ++ showSkel r ++ ")"
+
+/-- C16 in the controlled stream: model shape and, from the spec (`cartShape` of the in-order
+    priorities), the shape the theorem `shape_canonical` says it must have. -/
+def shapeTok {T : Type} (spec : Bool) (t : Tree T) : String :=
+  if nodupB (prios t) then
+    "shape:" ++ showSkel (if spec then cartShape (prios t) else skel t)
+  else "ties"
+
+/-- C16: step through the history, after every operation report heap order of every live treap. -/
+def heapTrace {T G M : Type} (I : TItem T Int G M Int) :
+    List (Tree T) → List (Op Int M Int) → Option (List (Tree T) × List String)
+  | ts, [] => some (ts, [])
+  | ts, op :: ops =>
+    match stepM I ts op with
+    | none => none
+    | some (ts', _) =>
+      match heapTrace I ts' ops with
+      | none => none
+      | some (ts'', out) => some (ts'', (if ts'.all isHeap then "ok" else "BAD") :: out)
+
+def runCase {T G M : Type} (I : TItem T Int G M Int) (io : ItemIO G M)
+    (focus stream : String) (pm : Nat) (opStrs : List String) : String :=
+  match parseOps io pm 0 opStrs with
+  | none => "BAD-OPS"
+  | some ops =>
+    if focus = "C03" then
+      match runM I [] ops, runS I [] ops with
+      | some (_, mo), some (_, so) =>
+        let raw := " ".intercalate (mo.map (showObs io.showG false))
+        let view := " ".intercalate (mo.map (showObs io.showG true))
+        let spec := " ".intercalate (so.map (showObs io.showG true))
+        answer3 raw view (if runInDomB (G := G) I [] ops then spec else "any")
+      | _, _ => answer "INVALID" "any"
+    else
+      match heapTrace I [] ops with
+      | none => answer "INVALID" "any"
+      | some (ts, out) =>
+        let m := " ".intercalate (out.map (fun _ => "ok"))
+        let v := " ".intercalate out
+        if stream = "ctl" then
+          let shapesM := " ".intercalate (ts.map (shapeTok false))
+          let shapesS := " ".intercalate (ts.map (shapeTok true))
+          answer (v ++ " / " ++ shapesM) (m ++ " / " ++ shapesS)
+        else answer v m
+
+/-- `big` stream: only the element count is modelled. -/
+def bigStep (n : Nat) (toks : List String) : Option Nat :=
+  match toks with
+  | [op, c] =>
+    match parseNat? c with
+    | none => none
+    | some c =>
+      if op = "append" ∨ op = "front" ∨ op = "alt" ∨ op = "mid" then some (n + c)
+      else none
+  | [op, c, _seed] =>
+    match parseNat? c with
+    | none => none
+    | some c =>
+      if op = "rand" then some (n + c)
+      else if op = "rot" then some n
+      else if op = "del" then some (n - c)
+      else none
+  | _ => none
+
+def runBig : Nat → List String → Option (List String)
+  | _, [] => some []
+  | n, s :: rest =>
+    match bigStep n (tokens s) with
+    | none => none
+    | some n' => (runBig n' rest).map (s!"n={n'}:ok" :: ·)
+
+def handle (line : String) : String :=
+  match splitOps line with
+  | [] => badLine line
+  | hdr :: opStrs =>
+    match tokens hdr with
+    | focus :: item :: stream :: rest =>
+      if focus ≠ "C03" ∧ focus ≠ "C16" then badLine line else
+      let pm : Nat := match rest with
+        | [t] => if t.startsWith "pm=" then ((t.drop 3).toString.toNat?).getD 4 else 4
+        | _ => 4
+      if stream = "big" then
+        match runBig 0 opStrs with
+        | some out => let s := " ".intercalate out; answer s s
+        | none => answer "INVALID" "any"
+      else
+      let r :=
+        if item = "sum" then runCase sumAdd sumIO focus stream pm opStrs
+        else if item = "aff" then runCase affHash affIO focus stream pm opStrs
+        else "BAD-OPS"
+      if r = "BAD-OPS" then badLine line else r
+    | _ => badLine line
+
+def main : IO Unit := driverMain handle
